@@ -109,11 +109,17 @@ def run(pid, tier, seed, replay=None):
             continue
         d = {k: cs[1][k] - cs[0][k] for k in ('bytes', 'allocs', 'searches', 'collisions')}
         d['cores'] = cs[1]['stat'][0]
+        d['goto_successes'] = cs[1]['stat'][4]
         d['sets'] = cs[1]['stat'][2]
         table.append({'grammar': name, 'la': la, 'tokens': ln, **d})
         for k, (per, const) in ENV.items():
             if d[k] > per * ln + const:
                 chk.violation(sig % ('envelope-' + k), '%s: %d for %d tokens exceeds the linear envelope %d*n+%d' % (k, d[k], ln, per, const), rep)
+        # identical sets are found again rather than rebuilt: on these repetitive inputs a fixed share of the tokens
+        # is served by the goto cache at every lookahead level (observed on the pinned tree: 0.5 n, 0.25 n for the
+        # statement grammar at level 0; the plain list never re-uses a set because its distances keep growing)
+        if name in ('expr', 'stmts', 'mix/block', 'mix/inter') and ln >= 4000 and d['goto_successes'] < (0.15 if name == 'stmts' else 0.35) * ln:
+            chk.violation(sig % 'reuse', 'only %d of %d tokens were served by re-used sets (goto cache)' % (d['goto_successes'], ln), rep)
         prev = series.get(key)
         if prev is not None:
             pn, pd = prev
